@@ -166,17 +166,17 @@ package gpbft
 // C18 relies on AllPrefixes returning one chain per prefix length, sharing the tipsets of the receiver, with the key
 // cache of prefix i filled from entry i of the batch tree over the tipsets' signing encodings.
 //@ func (*ECChain).AllPrefixes
-//@   property C18
+//@   property C18 C14
 //@   modifies auto
 //@   maypanic
 //@   ensures[one_prefix_per_length] c != nil && len(c.TipSets) > 0 ==> len(result) == len(c.TipSets)
-//@   ensures[prefix_i_has_the_first_i_plus_1_tipsets] c != nil ==> forall(j, 0, len(result), result[j] != nil && len(result[j].TipSets) == j + 1 && forall(k, 0, j + 1, result[j].TipSets[k] == c.TipSets[k]))
+//@   ensures[prefix_i_has_the_first_i_plus_1_tipsets] c != nil ==> forall(j, 0, len(result), result[j] != nil && len(result[j].TipSets) == j + 1 && cap(result[j].TipSets) == j + 1 && forall(k, 0, j + 1, result[j].TipSets[k] == c.TipSets[k]))
 //@   ensures[the_zero_chain_has_no_prefixes] c == nil || len(c.TipSets) == 0 ==> len(result) == 0
 //@   loop 1
 //@     invariant len(values) == len(c.TipSets)
 //@   loop 2
 //@     invariant len(res) == len(c.TipSets) && c.TipSets == old(c.TipSets) && len(batch) == len(c.TipSets) && 0 <= i && i < len(c.TipSets)
-//@     invariant forall(j, 0, i, res[j] != nil && len(res[j].TipSets) == j + 1 && forall(k, 0, j + 1, res[j].TipSets[k] == c.TipSets[k]))
+//@     invariant forall(j, 0, i, res[j] != nil && len(res[j].TipSets) == j + 1 && cap(res[j].TipSets) == j + 1 && forall(k, 0, j + 1, res[j].TipSets[k] == c.TipSets[k]))
 
 // ---- C05 / C13: message validation ----
 
@@ -785,3 +785,166 @@ package gpbft
 //@     before[the_alarm_is_the_returned_timeout] arg(0) == res(Add, 1)
 //@   at return 0
 //@     before[returns_the_alarm_time] arg(0) == res(Add, 1) && dominatedBy(SetAlarm, 1)
+
+// ---- C14: what is signed ----
+
+// The signed bytes of a vote: tag, network name, step, round, instance, commitments, the value's key and the power
+// table CID of the supplemental data, each written once, in this order, into one buffer whose bytes are returned.
+//@ func (*Payload).MarshalForSigningWithValueKey
+//@   property C14
+//@   modifies auto
+//@   maypanic
+//@   at WriteString 1
+//@     before[starts_with_the_domain_separation_tag] argOf(Grow, 1, 0) == arg(0)
+//@   at Write 1
+//@     before[step_comes_first_of_the_fixed_width_fields] arg(0) == argOf(Grow, 1, 0) && arg(2) == p.Phase && dominatedBy(WriteString, 4)
+//@   at Write 2
+//@     before[then_the_round] arg(0) == argOf(Grow, 1, 0) && arg(2) == p.Round && dominatedBy(Write, 1)
+//@   at Write 3
+//@     before[then_the_instance] arg(0) == argOf(Grow, 1, 0) && arg(2) == p.Instance && dominatedBy(Write, 2)
+//@   at Write 4
+//@     before[then_the_commitments] arg(0) == argOf(Grow, 1, 0) && arg(1) == p.SupplementalData.Commitments[:] && dominatedBy(Write, 3)
+//@   at Write 5
+//@     before[then_the_key_of_the_value] arg(0) == argOf(Grow, 1, 0) && arg(1) == key[:] && dominatedBy(Write, 4)
+//@   at Write 6
+//@     before[then_the_power_table_cid] arg(0) == argOf(Grow, 1, 0) && arg(1) == res(Bytes, 1) && dominatedBy(Write, 5)
+//@   at return 0
+//@     before[returns_the_bytes_of_that_buffer_after_the_last_field] arg(0) == res(Bytes, 2) && argOf(Bytes, 2, 0) == argOf(Grow, 1, 0) && dominatedBy(Write, 6)
+
+//@ func (*Payload).MarshalForSigning
+//@   property C14
+//@   modifies auto
+//@   maypanic
+//@   at return 0
+//@     before[signs_the_key_of_its_own_value] arg(0) == res(MarshalForSigningWithValueKey, 1) && argOf(MarshalForSigningWithValueKey, 1, 0) == p && argOf(MarshalForSigningWithValueKey, 1, 1) == nn && argOf(MarshalForSigningWithValueKey, 1, 2) == res(Key, 1) && argOf(Key, 1, 0) == p.Value
+
+// The encoding of a tipset that enters the chain key: epoch, commitments, CID of the CBOR byte string of the tipset key,
+// power table CID.
+//@ func (*TipSet).MarshalForSigning
+//@   property C14
+//@   modifies auto
+//@   maypanic
+//@   at WriteByteArray 1
+//@     before[tipset_key_is_hashed_as_a_cbor_byte_string] arg(1) == ts.Key
+//@   at MakeCid 1
+//@     before[cid_of_exactly_that_encoding] arg(0) == res(Bytes, 1) && dominatedBy(WriteByteArray, 1)
+//@   at Write 1
+//@     before[epoch_first] arg(2) == ts.Epoch && dominatedBy(Reset, 1)
+//@   at Write 2
+//@     before[then_the_commitments] arg(1) == ts.Commitments[:] && dominatedBy(Write, 1)
+//@   at Write 3
+//@     before[then_the_cid_of_the_key] arg(1) == res(Bytes, 2) && argOf(Bytes, 2, 0) == res(MakeCid, 1) && dominatedBy(Write, 2)
+//@   at Write 4
+//@     before[then_the_power_table_cid] arg(1) == res(Bytes, 3) && argOf(Bytes, 3, 0) == ts.PowerTable && dominatedBy(Write, 3)
+//@   at return 0
+//@     before[returns_the_buffer_after_the_last_field] arg(0) == res(Bytes, 4) && dominatedBy(Write, 4)
+
+// The VRF ticket input: tag, network name, beacon, instance, round.
+//@ func vrfSerializeSigInput
+//@   property C14
+//@   modifies auto
+//@   maypanic
+//@   at Write 1
+//@     before[beacon_after_tag_and_network] arg(1) == beacon && dominatedBy(WriteString, 4)
+//@   at Write 2
+//@     before[then_the_instance] arg(2) == instance && dominatedBy(WriteString, 5)
+//@   at Write 3
+//@     before[then_the_round] arg(2) == round && dominatedBy(Write, 2)
+//@   at return 0
+//@     before[returns_the_buffer_after_the_last_field] arg(0) == res(Bytes, 1) && dominatedBy(Write, 3)
+
+// The chain key: bottom has the zero key; otherwise the Merkle root over the signing encodings of the tipsets, in
+// order (computed once, by the closure below).
+//@ func (*ECChain).Key$1
+//@   property C14
+//@   modifies auto
+//@   maypanic
+//@   at Tree 1
+//@     before[root_over_one_encoding_per_tipset_in_order] arg(0) == values && len(values) == len(c.TipSets) && forall(j, 0, len(values), bytesEq(values[j], tsEnc(c.TipSets[j])), trigger(values[j]))
+//@   at MarshalForSigning 1
+//@     assume bytesEq(res(MarshalForSigning, 1), tsEnc(arg(0)))
+//@   loop 1
+//@     invariant len(values) == len(c.TipSets)
+//@     invariant c.TipSets == old(c.TipSets)
+//@     invariant forall(j, 0, iter, bytesEq(values[j], tsEnc(c.TipSets[j])), trigger(values[j]))
+//@   at return 0
+//@     before[the_root_is_cached_as_the_key] c.key == res(Tree, 1)
+
+// The batch variant feeds the same encodings, in the same order, to the batch tree and returns its roots unchanged.
+//@ func (*ECChain).KeysForPrefixes
+//@   property C14
+//@   modifies auto
+//@   maypanic
+//@   at BatchTree 1
+//@     before[same_encodings_in_the_same_order] arg(0) == values && len(values) == len(c.TipSets) && forall(j, 0, len(values), bytesEq(values[j], tsEnc(c.TipSets[j])), trigger(values[j]))
+//@   at MarshalForSigning 1
+//@     assume bytesEq(res(MarshalForSigning, 1), tsEnc(arg(0)))
+//@   loop 1
+//@     invariant len(values) == len(c.TipSets) && c.TipSets == old(c.TipSets) && forall(j, 0, iter, bytesEq(values[j], tsEnc(c.TipSets[j])), trigger(values[j]))
+//@   loop 2
+//@     invariant len(res) == len(c.TipSets) && len(batch) == len(c.TipSets) && c.TipSets == old(c.TipSets) && 0 <= i && i < len(c.TipSets) && forall(j, 0, i, res[j] == batch[j], trigger(res[j]))
+//@   ensures[key_i_is_root_i_of_the_batch] c != nil && len(c.TipSets) > 0 ==> len(result) == len(c.TipSets) && forall(j, 0, len(result), result[j] == res(BatchTree, 1)[j], trigger(result[j]))
+
+//@ spec func tsEnc(ts *TipSet) []byte
+
+// Decoding into a chain object that was used before must not leave its cached key behind: a non-empty decode starts from
+// a zero chain (empty key cache, Once not yet done) and then holds one tipset per decoded element, in order.
+//@ func (*ECChain).UnmarshalCBOR
+//@   property C14
+//@   modifies auto
+//@   maypanic
+//@   ensures[a_non_empty_decode_resets_the_key_cache] result == nil && len(c.TipSets) > 0 && c.TipSets != old(c.TipSets) ==> c.keyLazyLoader.done.v == 0
+//@   at return 2
+//@     before[one_tipset_per_decoded_element_in_order] res(UnmarshalCBOR, 1) == nil && (len(chain) > 0 ==> len(c.TipSets) == len(chain) && forall(j, 0, len(chain), c.TipSets[j] == &chain[j], trigger(c.TipSets[j])))
+//@   loop 1
+//@     invariant len(c.TipSets) == length && length == len(chain) && 0 <= i && i < length && c.keyLazyLoader.done.v == 0 && forall(j, 0, i, c.TipSets[j] == &chain[j], trigger(c.TipSets[j]))
+
+// cbor-gen's one-byte constants (var CborNull = []byte{0xf6} and friends).
+//@ axiom cbor_gen_single_byte_constants: len(typegen.CborNull) == 1 && len(typegen.CborBoolTrue) == 1 && len(typegen.CborBoolFalse) == 1
+
+//@ func (*GMessage).UnmarshalCBOR
+//@   property C14
+//@   modifies auto
+//@   maypanic
+
+// C14 decoder sweep: no index, slice or allocation-size panic for any input the CBOR reader can produce.
+//@ func (*Justification).UnmarshalCBOR
+//@   property C14
+//@   modifies auto
+//@   maypanic
+
+//@ func (*Payload).UnmarshalCBOR
+//@   property C14
+//@   modifies auto
+//@   maypanic
+
+//@ func (*PowerEntries).UnmarshalCBOR
+//@   property C14
+//@   modifies auto
+//@   maypanic
+
+//@ func (*PowerEntry).UnmarshalCBOR
+//@   property C14
+//@   modifies auto
+//@   maypanic
+
+//@ func (*SupplementalData).UnmarshalCBOR
+//@   property C14
+//@   modifies auto
+//@   maypanic
+
+//@ func (*TipSet).UnmarshalCBOR
+//@   property C14
+//@   modifies auto
+//@   maypanic
+
+//@ func (*LegacyECChain).UnmarshalCBOR
+//@   property C14
+//@   modifies auto
+//@   maypanic
+
+//@ func (*PartialGMessage).UnmarshalCBOR
+//@   property C14
+//@   modifies auto
+//@   maypanic
+
